@@ -257,6 +257,45 @@ func (fv *FV) discharge(o *Obligation, timeout time.Duration, all bool) {
 	if best.status == "sat" || best.status == "unknown" {
 		o.Model = truncate(best.out, 4000)
 	}
+	if o.Status != "unsat" && o.Status != "sat" {
+		// candidate counterexample: drop quantified assumptions (weaker hypotheses), ask for a model
+		g := groundQuery(q)
+		r := runSolver(context.Background(), solvers[0], g, 5*time.Second)
+		if r.status == "sat" {
+			o.Candidate = true
+			o.Ground = g
+			o.Model = truncate(r.out, 4000)
+		}
+	}
+}
+
+// groundQuery removes quantified assumptions (keeps the negated goal, which is the last assert).
+func groundQuery(q string) string {
+	lines := strings.Split(q, "\n")
+	var out []string
+	lastAssert := -1
+	for i, l := range lines {
+		if strings.HasPrefix(l, "(assert ") {
+			lastAssert = i
+		}
+	}
+	var strs []string
+	for i, l := range lines {
+		if i != lastAssert && strings.HasPrefix(l, "(assert ") && (strings.Contains(l, "(forall ") || strings.Contains(l, "(exists ")) {
+			continue
+		}
+		if strings.HasPrefix(l, "(declare-const ") && strings.HasSuffix(strings.TrimSpace(strings.SplitN(l, ";", 2)[0]), " pv_Str)") {
+			f := strings.Fields(l)
+			strs = append(strs, f[1])
+		}
+		if i == lastAssert {
+			for _, s := range strs {
+				out = append(out, fmt.Sprintf("(assert (and (>= (pv_len %s) 0) (<= (pv_len %s) 40)))", s, s))
+			}
+		}
+		out = append(out, l)
+	}
+	return strings.Join(out, "\n")
 }
 
 func dischargeAll(fvs []*FV, filter func(*Obligation) bool, timeout time.Duration, all bool, workers int) {
@@ -267,6 +306,10 @@ func dischargeAll(fvs []*FV, filter func(*Obligation) bool, timeout time.Duratio
 	var jobs []job
 	for _, fv := range fvs {
 		for _, o := range fv.obls {
+			if len(fv.outside) > 0 {
+				o.Status = "outside"
+				continue
+			}
 			if filter == nil || filter(o) {
 				jobs = append(jobs, job{fv, o})
 			}
